@@ -5,6 +5,18 @@ from core import Corr, Violation, run_driver
 from extract import c07 as c07x
 
 ID = "C07"
+#: functions the hand-written model transcribes: their control skeleton (extract/shape.py) is regenerated into
+#: Gen/C07.lean and compared with the literal in Properties/C07.lean (`modelled_functions_have_the_transcribed_shape`)
+SHAPES = [
+    ("shapeConstraintKmeans", "mlinsights/mlmodel/_kmeans_constraint_.py", "constraint_kmeans"),
+    ("shapeAssociation", "mlinsights/mlmodel/_kmeans_constraint_.py", "_constraint_association"),
+    ("shapeAssociationDistance", "mlinsights/mlmodel/_kmeans_constraint_.py", "_constraint_association_distance"),
+    ("shapeAssociationGain", "mlinsights/mlmodel/_kmeans_constraint_.py", "_constraint_association_gain"),
+    ("shapeSwitchClusters", "mlinsights/mlmodel/_kmeans_constraint_.py", "_switch_clusters"),
+    ("shapeRandomizeIndex", "mlinsights/mlmodel/_kmeans_constraint_.py", "_randomize_index"),
+    ("shapeEstimatorFit", "mlinsights/mlmodel/kmeans_constraint.py", "ConstraintKMeans.fit"),
+    ("shapeEstimatorPredict", "mlinsights/mlmodel/kmeans_constraint.py", "ConstraintKMeans.predict"),
+]
 LEAN_TARGETS = ["MlVerif.Gen.C07", "MlVerif.Model.Balance", "MlVerif.Lemmas.Balance",
                 "MlVerif.Lemmas.BalanceGain", "MlVerif.Properties.C07"]
 PROPERTY_FILE = "MlVerif/Properties/C07.lean"
@@ -575,8 +587,9 @@ def _check_config(cfg):
 def _make_cfg(rng, n, k, strategy, kmeans0, d=None, max_iter=None):
     d = d or rng.choice([1, 2, 3])
     X = gen_points(rng, n, d, rng.choice([4, 8, 16, 64]))
-    m = rng.randint(k, max(k, n + 4))
-    Xb = gen_points(rng, m, d, 16)
+    # "any batch": also batches with fewer rows than clusters (then every cluster gets 0 or 1 row)
+    m = rng.randint(k, max(k, n + 4)) if rng.random() < 0.7 else rng.randint(1, k)
+    Xb = gen_points(rng, m, d, rng.choice([2, 16]))
     return dict(n=n, k=k, strategy=strategy, kmeans0=kmeans0, seed=rng.randrange(1 << 30),
                 max_iter=max_iter or rng.choice([2, 4, 6, 10, 20]), X=X.tolist(), Xb=Xb.tolist())
 
